@@ -197,6 +197,9 @@ public:
       return read_result;
     }
 
+#if defined(QUILL_VERIF)
+    verif::hit(verif::UQ_OLD_EMPTY_SEEN, this, 0);
+#endif
     // the buffer is empty check if another buffer exists
     Node* const next_node = _consumer->next.load(std::memory_order_acquire);
 
